@@ -255,26 +255,39 @@ Qed.
 Lemma trange_full_wf_wf r : trange_full_wf r -> trange_wf r.
 Proof. destruct r as [[f l] v]. unfold trange_full_wf, trange_wf. tauto. Qed.
 
-(* every bfrange block stays within the operand stack of the interpreter *)
-Definition blocks_depth_ok (xs : list trange) : Prop := Forall (fun c => depth_ok 0 c = true) (chunks xs).
-
-Lemma read_bfrange_blocks xs rest mi fuel :
-  Forall trange_full_wf xs -> blocks_depth_ok xs ->
-  read_blocks (length (chunks xs) + fuel) (blocks n_beginbfrange n_endbfrange bfrange_entry xs ++ rest) mi
-  = read_blocks fuel rest (add_items KBfRange mi [] [] [] [] (ebfranges xs)).
+(* any list of bfrange blocks that stay within the operand stack of the interpreter *)
+Lemma read_bfrange_chunklist (cs : list (list trange)) rest mi fuel :
+  Forall (fun c => (1 <= length c <= 100)%nat /\ Forall trange_wf c /\ depth_ok 0 c = true) cs ->
+  read_blocks (length cs + fuel) (flat_map (block n_beginbfrange n_endbfrange bfrange_entry) cs ++ rest) mi
+  = read_blocks fuel rest (add_items KBfRange mi [] [] [] [] (ebfranges (concat cs))).
 Proof.
-  intros Hwf Hd. unfold blocks. change n_endbfrange with (end_name KBfRange).
-  rewrite (read_blocks_chunks _ KBfRange n_beginbfrange bfrange_entry
+  intros H. change n_endbfrange with (end_name KBfRange).
+  apply (read_blocks_chunks _ KBfRange n_beginbfrange bfrange_entry
              (fun mi ys => add_items KBfRange mi [] [] [] [] (ebfranges ys))
              (fun c => Forall trange_wf c /\ depth_ok 0 c = true)).
-  - rewrite chunks_concat. reflexivity.
   - reflexivity.
   - intros ys r m [Hy Hdy]. cbn [take_block end_name]. rewrite take_bfranges_entries by assumption. reflexivity.
   - intros m ys zs. cbn [add_items mi_csr mi_cidchars mi_cidranges mi_ndchars mi_ndranges mi_bfchars mi_bfranges].
     unfold ebfranges. rewrite map_app, app_assoc. reflexivity.
   - intros m. cbn [add_items ebfranges map]. rewrite app_nil_r. destruct m; reflexivity.
-  - apply chunk_side.
-    assert (H1 : Forall (Forall trange_wf) (chunks xs)).
-    { apply forall_chunks. eapply Forall_impl; [|exact Hwf]. apply trange_full_wf_wf. }
-    unfold blocks_depth_ok in Hd. rewrite Forall_forall in *. intros c Hc. split; auto.
+  - eapply Forall_impl; [|exact H]. cbn beta. tauto.
+Qed.
+
+Lemma forall_concat_split {A} (P : A -> Prop) (cs : list (list A)) : Forall P (concat cs) -> Forall (Forall P) cs.
+Proof.
+  induction cs as [|c cs IH]; intros H; [constructor|].
+  cbn [concat] in H. apply Forall_app in H as [H1 H2]. constructor; auto.
+Qed.
+
+Lemma read_bfrange_blocks xs rest mi fuel :
+  Forall trange_full_wf xs -> lists_ok xs ->
+  read_blocks (length (range_chunks xs) + fuel)
+              (flat_map (block n_beginbfrange n_endbfrange bfrange_entry) (range_chunks xs) ++ rest) mi
+  = read_blocks fuel rest (add_items KBfRange mi [] [] [] [] (ebfranges xs)).
+Proof.
+  intros Hwf Hl. destruct (range_chunks_spec xs Hl) as [C1 C2].
+  rewrite read_bfrange_chunklist; [rewrite C1; reflexivity|].
+  assert (H1 : Forall (Forall trange_wf) (range_chunks xs)).
+  { apply forall_concat_split. rewrite C1. eapply Forall_impl; [|exact Hwf]. apply trange_full_wf_wf. }
+  rewrite Forall_forall in *. intros c Hc. destruct (C2 c Hc). auto.
 Qed.
